@@ -22,3 +22,23 @@ Theorem C17_bytes_selection_appends : forall v ps m pre, wfb v = true ->
   select_w (enc v) ps m pre = shift_result pre (select_w (enc v) ps m []).
 Proof. exact select_w_frame. Qed.
 Print Assumptions C17_bytes_selection_appends.
+
+(* the byte editors (EditWalk.v: iterators, builders, build_into on the caller's buffer) on encodings: the existing
+   content is kept as a prefix and what follows it is what the same call appends to an empty buffer; an error appends
+   nothing (an `Err` carries no buffer: the caller's buffer is as it was) *)
+From JB Require Import DispatchProofs EditWalk EditWalkProofs.
+Theorem C17_editors_append_bytes : forall buf,
+  (forall a b, wfb a = true -> top_ok a -> wfb b = true -> top_ok b -> wf_size (concat_t a b) = true ->
+     concat_w (enc a) (enc b) buf = res_map (app buf) (concat_w (enc a) (enc b) [])) /\
+  (forall v name, wfb v = true -> top_ok v ->
+     delete_by_name_w (enc v) name buf = res_map (app buf) (delete_by_name_w (enc v) name [])) /\
+  (forall v i, wfb v = true -> top_ok v ->
+     delete_by_index_w (enc v) i buf = res_map (app buf) (delete_by_index_w (enc v) i [])) /\
+  (forall v pos x, wfb v = true -> top_ok v -> wfb x = true -> top_ok x -> wf_size (array_insert_t v pos x) = true ->
+     array_insert_w (enc v) pos (enc x) buf = res_map (app buf) (array_insert_w (enc v) pos (enc x) [])) /\
+  (forall vs, Forall (fun v => wf_size v = true) vs ->
+     build_array_w (map enc vs) buf = res_map (app buf) (build_array_w (map enc vs) [])) /\
+  (forall ks vs, Forall (fun v => wf_size v = true) vs ->
+     build_object_w ks (map enc vs) buf = res_map (app buf) (build_object_w ks (map enc vs) [])).
+Proof. exact editors_append_bytes. Qed.
+Print Assumptions C17_editors_append_bytes.
